@@ -901,6 +901,9 @@ def _base_normal_pinned(chk, fi) -> None:
     rets = [r for r in fi.node.body if isinstance(r, ast.Return)]
     nrm = astq.first_assign(fi.node, "normal")
     ok = ok and nrm is not None and norm(nrm) == "numpy.cross(v1, v2)" and len(rets) == 1 and norm(rets[0].value) == "normal / numpy.linalg.norm(normal)"
+    # every early exit gives up with None (a fallback value for a base without its reference atoms is another normal)
+    early = [r for r in ast.walk(fi.node) if isinstance(r, ast.Return) and r not in rets]
+    ok = ok and all(r.value is None or (isinstance(r.value, ast.Constant) and r.value.value is None) for r in early)
     chk.expect(ok, "base-normal", fi.where, "base normal = unit cross product of (N7-N9, N3-N9) for purines, (C4-N1, O2-N1) otherwise", "the base normal is not the unit cross product of the two in-plane vectors N9->N7, N9->N3 (purines) / N1->C4, N1->O2 (pyrimidines)", K(fi, "normal"))
 
 
